@@ -20,22 +20,22 @@ type Op struct {
 
 // Case is one generated input.
 type Case struct {
-	Expo       bool     `json:"expo"`
-	Int        bool     `json:"int"`        // Int64Histogram instead of Float64Histogram
-	Cumulative bool     `json:"cumulative"` // temporality selector of the reader
-	Reuse      bool     `json:"reuse"`      // one ResourceMetrics reused by all collections
-	ViaOption  bool     `json:"via_option"` // explicit: boundaries passed with WithExplicitBucketBoundaries, no view
+	Expo       bool `json:"expo"`
+	Int        bool `json:"int"`        // Int64Histogram instead of Float64Histogram
+	Cumulative bool `json:"cumulative"` // temporality selector of the reader
+	Reuse      bool `json:"reuse"`      // one ResourceMetrics reused by all collections
+	ViaOption  bool `json:"via_option"` // explicit: boundaries passed with WithExplicitBucketBoundaries, no view
 	// RawView: explicit, not ViaOption: the boundaries reach the aggregator
 	// through a hand-written sdkmetric.View FUNCTION (no NewView validation)
 	// and in the shuffled order given by Shuffle (a list of swaps); the
 	// aggregator keeps its own sorted copy, so the data point must report the
 	// sorted bounds with every value in (lower, upper].
-	RawView bool  `json:"raw_view,omitempty"`
-	Shuffle []int `json:"shuffle,omitempty"`
-	Bounds     []vk.F64 `json:"bounds"`     // explicit
-	MaxSize    int32    `json:"max_size"`   // expo
-	MaxScale   int32    `json:"max_scale"`  // expo
-	Ops        []Op     `json:"ops"`        // the last op is a collection
+	RawView  bool     `json:"raw_view,omitempty"`
+	Shuffle  []int    `json:"shuffle,omitempty"`
+	Bounds   []vk.F64 `json:"bounds"`    // explicit
+	MaxSize  int32    `json:"max_size"`  // expo
+	MaxScale int32    `json:"max_scale"` // expo
+	Ops      []Op     `json:"ops"`       // the last op is a collection
 }
 
 // ---------------------------------------------------------------------
@@ -420,6 +420,51 @@ func bitsLen(v int64) int {
 	return n
 }
 
+// genExpoConfig draws MaxSize / MaxScale and the scales boundary neighbours
+// are computed for.
+func genExpoConfig(t *rapid.T, c *Case, g *genCtx) {
+	if uni(t, "sizecorner", 4) != 3 {
+		c.MaxSize = []int32{4, 160, 1, 2, 3, 20, 160, 20}[uni(t, "maxsize", 8)]
+	} else {
+		c.MaxSize = int32(1 + uni(t, "maxsize", 160))
+	}
+	if uni(t, "scalecorner", 2) == 0 {
+		c.MaxScale = []int32{0, 20, 1, 2, 3, -1, -10, 5, 8, 10, 15, 20, 12, 18, 6, 4}[uni(t, "maxscale", 16)]
+	} else {
+		c.MaxScale = int32(uni(t, "maxscale", 31)) - 10
+	}
+	// boundary neighbours for the scales the point can be reported at
+	for s := int(c.MaxScale); s >= 1 && s > int(c.MaxScale)-4; s-- {
+		g.scales = append(g.scales, s, s)
+	}
+	g.scales = append(g.scales, rapid.IntRange(1, 20).Draw(t, "otherscale"))
+}
+
+// setup draws what shapes the measurements of one instrument (g.c holds its
+// configuration).
+func (g *genCtx) setup(t *rapid.T) {
+	c := g.c
+	g.mode = []int{0, 0, 0, 1, 1, 2, 3, 3}[uni(t, "mode", 8)]
+	g.wide = uni(t, "wide", 4) == 3
+	g.ce = rapid.IntRange(-8, 8).Draw(t, "centerexp")
+	if rapid.IntRange(0, 5).Draw(t, "centerwide") == 0 {
+		g.ce = rapid.IntRange(-1070, 1020).Draw(t, "centerexpwide")
+	}
+	if c.Int {
+		g.ce = rapid.IntRange(0, 50).Draw(t, "centerexpint")
+	}
+	g.center = clipPos(math.Ldexp(1+float64(rapid.IntRange(0, 15).Draw(t, "centerfrac"))/16, g.ce))
+	g.spacing = rapid.SampledFrom([]int{6, 10, 14, 18, 22, 26, 34, 44}).Draw(t, "spacing")
+	g.negRate = rapid.SampledFrom([]int{0, 0, 2, 4}).Draw(t, "negrate")
+	g.e0 = rapid.IntRange(-1074, 960).Draw(t, "e0")
+	g.sets = rapid.SampledFrom([]int{1, 1, 1, 2}).Draw(t, "sets")
+	if c.Expo && c.MaxScale >= 1 {
+		g.winScale = max(1, int(c.MaxScale)-[]int{0, 0, 0, 1, 2, 5}[uni(t, "windown", 6)])
+		g.winLen = max(0, int(c.MaxSize)-1+rapid.IntRange(-1, 1).Draw(t, "winlen"))
+		g.win0 = int64(g.ce)<<uint(g.winScale) + rapid.Int64Range(0, int64(1)<<uint(g.winScale)-1).Draw(t, "win0")
+	}
+}
+
 func genCase(expo bool) func(t *rapid.T) Case {
 	return func(t *rapid.T) Case {
 		c := Case{Expo: expo}
@@ -428,21 +473,7 @@ func genCase(expo bool) func(t *rapid.T) Case {
 		c.Reuse = rapid.Bool().Draw(t, "reuse")
 		g := &genCtx{c: &c}
 		if expo {
-			if uni(t, "sizecorner", 4) != 3 {
-				c.MaxSize = []int32{4, 160, 1, 2, 3, 20, 160, 20}[uni(t, "maxsize", 8)]
-			} else {
-				c.MaxSize = int32(1 + uni(t, "maxsize", 160))
-			}
-			if uni(t, "scalecorner", 2) == 0 {
-				c.MaxScale = []int32{0, 20, 1, 2, 3, -1, -10, 5, 8, 10, 15, 20, 12, 18, 6, 4}[uni(t, "maxscale", 16)]
-			} else {
-				c.MaxScale = int32(uni(t, "maxscale", 31)) - 10
-			}
-			// boundary neighbours for the scales the point can be reported at
-			for s := int(c.MaxScale); s >= 1 && s > int(c.MaxScale)-4; s-- {
-				g.scales = append(g.scales, s, s)
-			}
-			g.scales = append(g.scales, rapid.IntRange(1, 20).Draw(t, "otherscale"))
+			genExpoConfig(t, &c, g)
 		} else {
 			c.Bounds = genBounds(t)
 			c.ViaOption = len(c.Bounds) > 0 && rapid.IntRange(0, 3).Draw(t, "viaoption") == 0
@@ -451,25 +482,7 @@ func genCase(expo bool) func(t *rapid.T) Case {
 				c.Shuffle = rapid.SliceOfN(rapid.IntRange(0, len(c.Bounds)-1), 1, 6).Draw(t, "shuffle")
 			}
 		}
-		g.mode = []int{0, 0, 0, 1, 1, 2, 3, 3}[uni(t, "mode", 8)]
-		g.wide = uni(t, "wide", 4) == 3
-		g.ce = rapid.IntRange(-8, 8).Draw(t, "centerexp")
-		if rapid.IntRange(0, 5).Draw(t, "centerwide") == 0 {
-			g.ce = rapid.IntRange(-1070, 1020).Draw(t, "centerexpwide")
-		}
-		if c.Int {
-			g.ce = rapid.IntRange(0, 50).Draw(t, "centerexpint")
-		}
-		g.center = clipPos(math.Ldexp(1+float64(rapid.IntRange(0, 15).Draw(t, "centerfrac"))/16, g.ce))
-		g.spacing = rapid.SampledFrom([]int{6, 10, 14, 18, 22, 26, 34, 44}).Draw(t, "spacing")
-		g.negRate = rapid.SampledFrom([]int{0, 0, 2, 4}).Draw(t, "negrate")
-		g.e0 = rapid.IntRange(-1074, 960).Draw(t, "e0")
-		g.sets = rapid.SampledFrom([]int{1, 1, 1, 2}).Draw(t, "sets")
-		if expo && c.MaxScale >= 1 {
-			g.winScale = max(1, int(c.MaxScale)-[]int{0, 0, 0, 1, 2, 5}[uni(t, "windown", 6)])
-			g.winLen = max(0, int(c.MaxSize)-1+rapid.IntRange(-1, 1).Draw(t, "winlen"))
-			g.win0 = int64(g.ce)<<uint(g.winScale) + rapid.Int64Range(0, int64(1)<<uint(g.winScale)-1).Draw(t, "win0")
-		}
+		g.setup(t)
 
 		n := vk.GenLen(200, 1, 2, 3, 8, 40, 120, 200).Draw(t, "nvalues")
 		if g.mode == 1 {
